@@ -413,7 +413,8 @@ impl Database {
             let index_rightmost = index_plan.rightmost_hint.get();
             let mut index_btree =
                 BTree::with_rightmost_hint(&mut *index_storage_guard, index_root, index_rightmost)?;
-            index_btree.insert_append(&key_buf_guard, &row_id_bytes)?;
+            // index keys arrive in no particular order: insert_append is for ascending keys only
+            index_btree.insert(&key_buf_guard, &row_id_bytes)?;
 
             let new_root = index_btree.root_page();
             let new_rightmost = index_btree.rightmost_hint();
